@@ -311,6 +311,86 @@ def rule_e_finish_last(chk, prog, tool):
         chk.broke("no call to sqfs_writer_finish in the %s closure" % tool)
 
 
+def rule_commit_guard(chk, prog, tool):
+    """K11-commitguard: the call that commits the image is reached only when everything the tool did with its input before
+    has succeeded.  In main of a packer, sqfs_writer_finish cannot be reached from the failure edge of an earlier call of
+    a stage of the tool (a function of the tool or of the writer / tree layer that answers a status which main tests).
+    A run that failed on its input and still goes through finish leaves, until the cleanup removes it, a complete and
+    readable image of a truncated input."""
+    main = [f for f in prog.functions() if f.name == "main" and f.unit.src.startswith("bin/%s/" % tool)]
+    if not main:
+        chk.broke("main of %s not found" % tool)
+        return 0
+    m = main[0].build()
+    fins = calls_to(m, "sqfs_writer_finish")
+    n = 0
+    for fin in fins:
+        n += 1
+        chk.analysed(m)
+        bad = None
+        for c in m.calls():
+            if c is fin or not c.callee or not (m.inst_dominates(c, fin) or m.reaches(c.bb, fin.bb)):
+                continue
+            g = prog.fn(c.callee, m.unit)
+            if g is None or g.decl or c.ty not in ("i32", "i64", "i8", "i1"):
+                continue
+            if not (g.unit.src.startswith(("bin/%s/" % tool, "lib/common/", "lib/fstree/", "lib/tar/"))):
+                continue
+            tests = [u for u in m.uses.get(c, []) if u.op == "icmp" and u.ops[1].is_const and u.ops[1].is_int and u.ops[1].sval == 0]
+            # also through a status variable that is tested later (`ret = stage(); ... if (ret == 0) status = SUCCESS`)
+            if not tests:
+                continue
+            # (a) the failure side of a test of the result does not lead to finish
+            tblocks = set()
+            for u in tests:
+                for br in m.uses.get(u, []):
+                    if br.op != "br" or len(br.x["succ"]) != 2:
+                        continue
+                    tblocks.add(br.bb)
+                    fail = br.x["succ"][1] if u.pred == "eq" else (br.x["succ"][0] if u.pred in ("ne", "slt") else None)
+                    if fail is not None and (fail is fin.bb or m.reaches(fail, fin.bb)):
+                        bad = (c, br)
+            # (b) and the result is tested before finish can be reached from the call
+            if c.bb not in tblocks:
+                seen_, st_ = set(), list(c.bb.succs)
+                while st_:
+                    b_ = st_.pop()
+                    if b_ in seen_ or b_ in tblocks:
+                        continue
+                    seen_.add(b_)
+                    if b_ is fin.bb:
+                        bad = (c, c)
+                        break
+                    st_.extend(b_.succs)
+        inst = "%s:main->sqfs_writer_finish@%d" % (tool, fin.line)
+        if bad is None:
+            chk.ok("K11-commitguard", inst, fin, "not reachable from the failure edge of any earlier stage")
+        else:
+            chk.violation("K11-commitguard", inst, bad[1], "sqfs_writer_finish can be reached although %s() failed: the image of a "
+                          "truncated input is committed (and readable) before the cleanup removes it" % norm_callee(bad[0].callee))
+    if n == 0:
+        chk.broke("main of %s does not call sqfs_writer_finish" % tool)
+    return n
+
+
+def rule_no_signal(chk, prog, tool, units=None):
+    """K2-nosignal (who-may-call): a kill ends the packer.  The closure of a packer installs no signal handler: a handled
+    termination signal lets the run go on -- towards the commit of whatever was packed so far."""
+    n = 0
+    for f in prog.functions():
+        if f.decl or (units is not None and f.unit.src not in units) or "/test/" in f.unit.src:
+            continue
+        n += 1
+        for c in f.build().calls():
+            if norm_callee(c.callee) in ("signal", "sigaction", "bsd_signal", "sysv_signal", "signalfd", "sigwait", "sigwaitinfo"):
+                chk.analysed(f)
+                chk.violation("K2-nosignal", "%s:%s:%s" % (tool, f.name, norm_callee(c.callee)), c, "the %s closure catches signals: a run "
+                              "that was told to stop can continue to the final superblock" % tool)
+                return n
+    chk.ok("K2-nosignal", "%s:closure" % tool, None, "no function of the closure (%d) installs or waits for a signal handler" % n)
+    return n
+
+
 def _wt_scan(prog, f, bidx, depth=0):
     """(bad, write_sites) for function f whose parameter bidx is the caller's data"""
     buf = f.params[bidx]
@@ -454,7 +534,11 @@ def run(chk):
             rule_b_finish(chk, prog)
         rule_c_who_commits(chk, prog, tool)
         rule_e_finish_last(chk, prog, tool)
+        rule_commit_guard(chk, prog, tool)
+        rule_no_signal(chk, prog, tool)
     rule_open_atomic(chk, lib)
+    chk.floor("K11-commitguard", 2)
+    chk.floor("K2-nosignal", 2)
     chk.floor("K12-open", 1)
     chk.floor("K12-init", 8)
     chk.floor("K11-window", 2)
@@ -476,3 +560,6 @@ def controls(chk):
     got = {(o["rule"], o["instance"]) for o in sub.obl if o["verdict"] == "VIOLATED"}
     chk.control("K11-final", ("K11-final", "after-commit:write_table") in got, "table written after the final superblock")
     chk.control("K2-commit", any(r == "K2-commit" for (r, _i) in got), "sqfs_super_write called by a stranger")
+    sub2 = Check("C14-control", chk.tier)
+    rule_no_signal(sub2, prog, "ctl", units={"c14_controls.c"})
+    chk.control("K2-nosignal", any(o["rule"] == "K2-nosignal" and o["verdict"] == "VIOLATED" for o in sub2.obl), "sigaction in the closure")
